@@ -89,7 +89,13 @@ func (s *Snapshot) Aggregate(similar Similarity) *Aggregated {
 		if r.Signature.less(&l.Signature) {
 			return false
 		}
-		return len(r.IDs) > len(l.IDs)
+		if len(l.IDs) != len(r.IDs) {
+			return len(r.IDs) > len(l.IDs)
+		}
+		// Buckets are collected from a map; break ties on the smallest goroutine
+		// ID (IDs are sorted and never shared between buckets) so the order is
+		// deterministic.
+		return l.IDs[0] < r.IDs[0]
 	})
 	return &Aggregated{
 		Snapshot: s,
